@@ -178,6 +178,10 @@ func AssertBytesEqual(a, b []byte, label string) {
 	}
 }
 
+// Or / And combine conditions without a control-flow fork under the engine.
+func Or(a, b bool) bool  { return a || b }
+func And(a, b bool) bool { return a && b }
+
 // Min is min(a, b) without a control-flow fork under the engine.
 func Min(a, b int) int {
 	if a < b {
